@@ -18,7 +18,7 @@ func init() {
 		Meta: report.Meta{
 			Property: "C19",
 			Rule: "a structured finite alphabet of doubles, every member of which is tried: every x = +-m*2^e with m < 2^15 (quick) / 2^18 (thorough), e in [-12,51], |x| < 2^52; every integer k in [-1100,1100] with k+-1/2 and the doubles adjacent to each; +-0; every k/10^p (|k|<=2000, p<=4) with its neighbours; 2^j and 2^j+-1 with neighbours for j<=51; " +
-				"for each x the built-ins floor, ceil, inc, dec, integer, decimal, round, number(string(x)) and round_places(x,n) for n in 0..8 are evaluated by the real runner in one looping script ($x supplied through a harness storer) and captured typed by a host function; " +
+				"for each x the built-ins floor, ceil, inc, dec, integer, decimal, round, number(string(x)) and round_places(x,n) for n in 0..8 are evaluated by the real runner in one looping script ($x supplied through a harness storer; floor, ceil, round and integer are called a second time in the same argument list on $y = x+1.5) and captured typed by a host function; " +
 				"oracle: the inequalities of the property in exact rational arithmetic (math/big), integrality by big.Float.IsInt; round_places is granted one ulp of x plus one ulp of the result; conversions over booleans, numbers and a list of strings; " +
 				"a case is one x (all built-ins); non-trivial = x is not an integer",
 			StatesMean:  "distinct numbers x tried; transitions = real Next calls (one per x, evaluating 18 built-in calls)",
@@ -142,13 +142,13 @@ func c19Oracle(x float64, v map[string]float64) string {
 
 const c19Script = `title: A
 ---
-<<call cap(floor($x), ceil($x), inc($x), dec($x), integer($x), decimal($x), round($x), number(string($x)), round_places($x,0), round_places($x,1), round_places($x,2), round_places($x,3), round_places($x,4), round_places($x,5), round_places($x,6), round_places($x,7), round_places($x,8))>>
+<<call cap(floor($x), ceil($x), inc($x), dec($x), integer($x), decimal($x), round($x), number(string($x)), round_places($x,0), round_places($x,1), round_places($x,2), round_places($x,3), round_places($x,4), round_places($x,5), round_places($x,6), round_places($x,7), round_places($x,8), floor($y), ceil($y), round($y), integer($y))>>
 sep
 <<jump A>>
 ===
 `
 
-var c19Names = []string{"floor", "ceil", "inc", "dec", "integer", "decimal", "round", "roundtrip", "rp0", "rp1", "rp2", "rp3", "rp4", "rp5", "rp6", "rp7", "rp8"}
+var c19Names = []string{"floor", "ceil", "inc", "dec", "integer", "decimal", "round", "roundtrip", "rp0", "rp1", "rp2", "rp3", "rp4", "rp5", "rp6", "rp7", "rp8", "floorY", "ceilY", "roundY", "integerY"}
 
 func runC19(ctx *report.Ctx) {
 	values := c19Values()
@@ -157,6 +157,7 @@ func runC19(ctx *report.Ctx) {
 	ctx.Bound("mantissa_bits", mbits)
 	st := newRecStorer()
 	st.hostWrite("x", yc.Num(0))
+	st.hostWrite("y", yc.Num(0))
 	r, err, pan := yc.NewReal([]string{c19Script}, "abc", st)
 	if err != nil || pan != "" {
 		ctx.HarnessError("C19: harness script does not load: %v %s", err, pan)
@@ -170,6 +171,13 @@ func runC19(ctx *report.Ctx) {
 	tryX := func(c *explore.Chooser, partName string, x float64) {
 		ctx.Current(fmt.Sprintf("%s: x=%v (bits %016x)", partName, x, math.Float64bits(x)))
 		st.hostWrite("x", yc.Num(x))
+		// a second number, used by further calls of the same built-ins in the same argument list: the result
+		// of one call must not be affected by another call of the same function
+		y := x + 1.5
+		if math.Abs(y) >= (1 << 52) {
+			y = x - 1.5
+		}
+		st.hostWrite("y", yc.Num(y))
 		captured = nil
 		ro := r.Next(0)
 		ctx.AddEvals(1, b2i(x != math.Trunc(x)))
@@ -193,7 +201,24 @@ func runC19(ctx *report.Ctx) {
 			v[name] = *captured[k].Number
 		}
 		ctx.OutcomeHash(math.Float64bits(v["round"]-x) ^ math.Float64bits(v["rp2"]-x)<<1)
-		if d := c19Oracle(x, v); d != "" {
+		d := c19Oracle(x, v)
+		if d == "" {
+			// the calls on y, by the same contracts
+			vy := map[string]float64{"floor": v["floorY"], "ceil": v["ceilY"], "round": v["roundY"], "integer": v["integerY"]}
+			Y := ratOf(y)
+			one, half := big.NewRat(1, 1), big.NewRat(1, 2)
+			switch {
+			case !isInt(vy["floor"]) || ratOf(vy["floor"]).Cmp(Y) > 0 || Y.Cmp(new(big.Rat).Add(ratOf(vy["floor"]), one)) >= 0:
+				d = fmt.Sprintf("floor(%v) = %v (second call of floor in the same argument list, after floor(%v))", y, vy["floor"], x)
+			case !isInt(vy["ceil"]) || ratOf(vy["ceil"]).Cmp(Y) < 0 || new(big.Rat).Sub(ratOf(vy["ceil"]), one).Cmp(Y) >= 0:
+				d = fmt.Sprintf("ceil(%v) = %v (second call of ceil in the same argument list)", y, vy["ceil"])
+			case !isInt(vy["round"]) || new(big.Rat).Abs(new(big.Rat).Sub(ratOf(vy["round"]), Y)).Cmp(half) > 0:
+				d = fmt.Sprintf("round(%v) = %v (second call of round in the same argument list)", y, vy["round"])
+			case vy["integer"] != math.Trunc(y):
+				d = fmt.Sprintf("integer(%v) = %v (second call of integer in the same argument list)", y, vy["integer"])
+			}
+		}
+		if d != "" {
 			ctx.Violation(report.Violation{Clause: "numeric-contract", Witness: w, Detail: d, Choices: c.Choices(), Part: partName,
 				Extra: map[string]any{"x": x, "values": v}})
 		} else if ctx.WantSample() && x != math.Trunc(x) && math.Abs(x) > 100 {
